@@ -45,7 +45,7 @@ def minerDamageModelNaive( fatigueData ):
     >>> rst = minerDamageModelNaive( fatigueData )
     '''
     # Edge case check
-    fatigueData = np.array( fatigueData )
+    fatigueData = np.array( fatigueData, dtype=float )
     if len( fatigueData.shape ) != 2:
         raise ValueError( "Input fatigueData dimension should be 2" )
     if fatigueData.shape[ 0 ] < 1:
@@ -102,7 +102,7 @@ def minerDamageModelClassic( lccData, snData, fatigueLimit ):
     >>> rst = minerDamageModelClassic( lccData, snData, fatigueLimit )
     '''
     # Edge case check
-    lccData = np.array( lccData )
+    lccData = np.array( lccData, dtype=float )
     if len( lccData.shape ) != 2:
         raise ValueError( "Input lccData dimension should be 2" )
     if lccData.shape[ 0 ] < 1:
